@@ -10,7 +10,8 @@
 #    ClusterShardMapper / MetaExecutor / ClusterTSDBStore / query engine on the coordinator, evaluates the
 #    property's oracles and compares with the model's terminal states.
 # 4. The recorded requests / dirty sets / results are validated by TLC against QueryFanoutTrace.
-import os, json, random, collections
+import os, json, random, collections, copy
+from concurrent.futures import ThreadPoolExecutor
 from vcheck import Infra, log, VERIF
 
 PKG = "coordinator"
@@ -32,10 +33,10 @@ def q(xs):
     return ['"%s"' % x for x in xs]
 
 
-def consts(nn, ns, kinds, dev, coords=("n1",), minrf=1, maxrf=None, streamf=STREAMF, callf=CALLF):
+def consts(nn, ns, kinds, dev, coords=("n1",), minrf=1, maxrf=None, streamf=STREAMF, callf=CALLF, localf=("up", "errReply")):
     nodes = ["n%d" % i for i in range(1, nn + 1)]
     return {"Nodes": q(nodes), "NShards": ns, "Coords": q(coords), "StreamFaults": q(streamf), "CallFaults": q(callf),
-            "LocalFaults": q(["up", "errReply"]), "Kinds": q(kinds), "MinRF": minrf, "MaxRF": maxrf or nn, "Dev": q(dev)}
+            "LocalFaults": q(localf), "Kinds": q(kinds), "MinRF": minrf, "MaxRF": maxrf or nn, "Dev": q(dev)}
 
 
 def scenarios_of(records):
@@ -74,6 +75,49 @@ def sample(rnd, scs, n, stall_share=0.12):
     return out
 
 
+def par(ctx, jobs):
+    """Run independent TLC jobs side by side (JVM start-up and initial-state enumeration dominate; the runs use
+    separate cfg files and metadirs).  Every job gets a shallow copy of ctx with its own counters, merged afterwards."""
+    subs = []
+    for _ in jobs:
+        c = copy.copy(ctx)
+        c.cov = {"states": 0, "transitions": 0, "tlc_runs": []}
+        subs.append(c)
+    with ThreadPoolExecutor(max_workers=len(jobs)) as ex:
+        futs = [ex.submit(j, c) for j, c in zip(jobs, subs)]
+        res, err = [], None
+        for f in futs:
+            try:
+                res.append(f.result())
+            except Exception as e:      # keep the first failure, let the others finish
+                res.append(None)
+                err = err or e
+    for c in subs:
+        ctx.cov["states"] += c.cov["states"]
+        ctx.cov["transitions"] += c.cov["transitions"]
+        ctx.cov["tlc_runs"] += c.cov["tlc_runs"]
+    if err:
+        raise err
+    return res
+
+
+def split_capable(s):
+    """A retry round can spread the shards of one remote group over two nodes: two remote shards share an owner
+    that fails at request time and have live owners that are not the same for both (needs four nodes)."""
+    c, f, ow = s["coord"], s["fault"], s["owners"]
+    rem = [i for i, o in enumerate(ow) if c not in o]
+    for i in rem:
+        for j in rem:
+            if i < j:
+                for n in set(ow[i]) & set(ow[j]):
+                    if f[n] in ("dialFail", "errReply", "stall"):
+                        li = {x for x in ow[i] if f[x] == "up"}
+                        lj = {x for x in ow[j] if f[x] == "up"}
+                        if li and lj and (li - set(ow[j]) or lj - set(ow[i])):
+                            return True
+    return False
+
+
 def run(ctx):
     sd = ctx.spec_dir("queryfanout")
     rnd = random.Random(ctx.seed)
@@ -89,9 +133,19 @@ def run(ctx):
         return {"scenarios": scs, "reps": reps, "workers": 12, "timeout_ms": int(os.environ.get("VERIF_C05_TIMEOUT_MS", "600")),
                 "trace_out": os.path.join(ctx.scratch, "trace-%d.ndjson" % len(os.listdir(ctx.scratch)))}
 
+    confirmed = [0]
+
     def confirm(rp):
         if not rp:
             return False
+        if confirmed[0] >= 4:
+            return True       # four classes reproduced on their own already: the remaining ones are reported as observed
+        ok = confirm1(rp)
+        if ok:
+            confirmed[0] += 1
+        return ok
+
+    def confirm1(rp):
         if "rpc" in rp:
             recs, out, rc = go({"scenarios": []}, "confirm-rpc", test="^TestVerifFanoutRPC$")
             return any(r.get("k") == "mismatch" and r.get("replay", {}).get("rpc") == rp["rpc"] for r in recs)
@@ -122,58 +176,80 @@ def run(ctx):
             ctx.process(recs, out, rc, "TestVerifFanout", None)
         return ctx.finish("model_checking", {"replayed": ctx.replay})
 
-    # ------------------------------------------------------------------ 1. exhaustive model checking
+    # ------------------------------------------------------------------ 1. exhaustive model checking, 2. scenarios
     cov = not quick
-    c32 = consts(3, 2, kinds, [])
-    ctx.write_cfg(sd, "MC32.cfg", "Spec", c32, STRICT_INV)
-    r = ctx.tlc_check(sd, "QueryFanout", "MC32.cfg", workers=8, timeout=900, coverage=cov)
-    if cov and r.get("zero_coverage"):
-        raise Infra("actions never taken in MC32: %s" % r["zero_coverage"])
-    if not quick:
-        c22 = consts(2, 2, kinds, [], coords=("n1", "n2"))
-        ctx.write_cfg(sd, "MC22.cfg", "Spec", c22, STRICT_INV)
-        ctx.tlc_check(sd, "QueryFanout", "MC22.cfg", workers=4, timeout=600)
-        c33 = consts(3, 3, kinds, [])
-        ctx.write_cfg(sd, "MC33.cfg", "Spec", c33, STRICT_INV)
-        ctx.tlc_check(sd, "QueryFanout", "MC33.cfg", workers=8, timeout=2400)
-        c32c = consts(3, 2, kinds, [], coords=("n1", "n2", "n3"), streamf=["up", "dialFail", "errReply", "cutFrame"])
-        ctx.write_cfg(sd, "MC32c.cfg", "Spec", c32c, STRICT_INV)
-        ctx.tlc_check(sd, "QueryFanout", "MC32c.cfg", workers=8, timeout=1200)
-    # non-vacuity: with every deviation of the code enabled the model must show the silent partial results
-    cneg = consts(2, 2, kinds, ["F6", "F7", "F8", "MTL"], coords=("n1",))
-    for inv in ctx.pick(("C05_NeverSilentlyPartialStrict",), ("C05_NeverSilentlyPartialStrict", "C05_ErrorReplySurfacesStrict")):
-        ctx.write_cfg(sd, "MCneg.cfg", "Spec", cneg, [inv])
-        r = ctx.tlc_check(sd, "QueryFanout", "MCneg.cfg", workers=2, timeout=300, expect_ok=False)
-        if r["ok"]:
-            raise Infra("negative model run: %s is not violated with all deviations enabled (vacuous model)" % inv)
+    RT = ["up", "dialFail", "errReply"]
+    jobs = []
 
-    # ------------------------------------------------------------------ 2. scenarios with the model's outcomes
-    # The generator runs with the recorded deviations enabled and checks the invariants modulo taint on the way.
-    g32 = consts(3, 2, kinds, ASIS)
-    ctx.write_cfg(sd, "G32.cfg", "Spec", g32, ASIS_INV, extra="INVARIANT Emit")
-    s32 = scenarios_of(ctx.tlc_generate(sd, "QueryFanoutGen", "G32.cfg", exhaustive=True, workers=8, timeout=900))
+    def mc(name, c, workers=8, timeout=900, coverage=False):
+        def job(cx):
+            cx.write_cfg(sd, name + ".cfg", "Spec", c, STRICT_INV)
+            r = cx.tlc_check(sd, "QueryFanout", name + ".cfg", workers=workers, timeout=timeout, coverage=coverage)
+            if coverage and r.get("zero_coverage"):
+                raise Infra("actions never taken in %s: %s" % (name, r["zero_coverage"]))
+            return r
+        return job
+
+    def neg(name, inv):
+        # non-vacuity: with every deviation of the code enabled the model must show the silent partial results
+        def job(cx):
+            cx.write_cfg(sd, name + ".cfg", "Spec", consts(2, 2, kinds, ["F6", "F7", "F8", "MTL"], coords=("n1",)), [inv])
+            r = cx.tlc_check(sd, "QueryFanout", name + ".cfg", workers=2, timeout=300, expect_ok=False)
+            if r["ok"]:
+                raise Infra("negative model run: %s is not violated with all deviations enabled (vacuous model)" % inv)
+            return r
+        return job
+
+    def gen(name, c, workers=4, timeout=900):
+        # the generator runs with the recorded deviations enabled and checks the invariants modulo taint on the way
+        def job(cx):
+            cx.write_cfg(sd, name + ".cfg", "Spec", c, ASIS_INV, extra="INVARIANT Emit")
+            return scenarios_of(cx.tlc_generate(sd, "QueryFanoutGen", name + ".cfg", exhaustive=True, workers=workers, timeout=timeout))
+        return job
+
+    jobs.append(mc("MC32", consts(3, 2, kinds, []), coverage=cov))
+    jobs.append(neg("MCneg1", "C05_NeverSilentlyPartialStrict"))
+    jobs.append(gen("G32", consts(3, 2, kinds, ASIS)))
     if quick:
-        g33 = consts(3, 3, ["select", "query", "cost"], ASIS, minrf=2, maxrf=2, streamf=["up", "dialFail", "errReply", "cutFrame", "cutMid"],
-                     callf=["up", "dialFail", "errReply"])
-        s22 = []
+        jobs.append(gen("G33", consts(3, 3, ["select", "query", "cost"], ASIS, minrf=2, maxrf=2,
+                                      streamf=["up", "dialFail", "errReply", "cutFrame", "cutMid"], callf=RT)))
+        # four nodes: the only size at which a retry round can split a group's shards over two nodes
+        jobs.append(gen("G42", consts(4, 2, ["select"], ASIS, minrf=2, maxrf=3, streamf=RT, callf=RT, localf=("up",))))
+        r = par(ctx, jobs)
+        s32, s33, s42, s22 = r[2], r[3], r[4], []
     else:
-        g33 = consts(3, 3, kinds, ASIS)
-        g22 = consts(2, 2, kinds, ASIS, coords=("n1", "n2"))
-        ctx.write_cfg(sd, "G22.cfg", "Spec", g22, ASIS_INV, extra="INVARIANT Emit")
-        s22 = scenarios_of(ctx.tlc_generate(sd, "QueryFanoutGen", "G22.cfg", exhaustive=True, workers=2, timeout=600))
-    ctx.write_cfg(sd, "G33.cfg", "Spec", g33, ASIS_INV, extra="INVARIANT Emit")
-    s33 = scenarios_of(ctx.tlc_generate(sd, "QueryFanoutGen", "G33.cfg", exhaustive=True, workers=8 if not quick else 4, timeout=2400))
-    n32, n33, n22 = ctx.pick((1000, 300, 0), (6000, 5000, len(s22)))
-    chosen = [dict(s) for s in sample(rnd, s32, n32) + sample(rnd, s33, n33, 0.05) + sample(rnd, s22, n22)]
+        r = par(ctx, jobs)
+        s32 = r[2]
+        jobs = [mc("MC22", consts(2, 2, kinds, [], coords=("n1", "n2")), workers=4, timeout=600),
+                neg("MCneg2", "C05_ErrorReplySurfacesStrict"),
+                mc("MC32c", consts(3, 2, kinds, [], coords=("n1", "n2", "n3"), streamf=["up", "dialFail", "errReply", "cutFrame"]), timeout=1200),
+                gen("G22", consts(2, 2, kinds, ASIS, coords=("n1", "n2")), workers=2, timeout=600)]
+        r = par(ctx, jobs)
+        s22 = r[3]
+        jobs = [mc("MC33", consts(3, 3, kinds, []), timeout=2400),
+                gen("G33", consts(3, 3, kinds, ASIS), workers=8, timeout=2400)]
+        r = par(ctx, jobs)
+        s33 = r[1]
+        jobs = [mc("MC42", consts(4, 2, ["select", "query", "cost"], [], minrf=2, maxrf=3, streamf=RT + ["cutFrame"], callf=RT), timeout=1800),
+                gen("G42", consts(4, 2, ["select", "query", "cost"], ASIS, minrf=2, maxrf=3, streamf=RT + ["cutFrame"], callf=RT), workers=8, timeout=1800)]
+        r = par(ctx, jobs)
+        s42 = r[1]
+    n32, n33, n22, n42 = ctx.pick((900, 250, 0, 200), (6000, 5000, len(s22), 2500))
+    chosen = [dict(s) for s in sample(rnd, s32, n32) + sample(rnd, s33, n33, 0.05) + sample(rnd, s22, n22) + sample(rnd, s42, n42, 0.0)]
+    # rare but important class: run every such scenario of the universe, three times (the owner choice is random)
+    split = [s for s in s42 if split_capable(s)]
+    rnd.shuffle(split)
+    split = split[:ctx.pick(40, 400)]
+    chosen += [dict(s, split=True) for s in split for _ in range(3)]
     rnd.shuffle(chosen)
     for i, s in enumerate(chosen):
         s["id"] = i + 1
         s["variant"] = rnd.randrange(0, 5040)
-        s["trace"] = s["kind"] != "query" and rnd.random() < 0.8
-        if len(s["nodes"]) == 3 and rnd.random() < 0.4:
+        s["trace"] = s["kind"] != "query" and (rnd.random() < 0.8 or s.get("split", False))
+        if len(s["nodes"]) >= 3 and rnd.random() < 0.4:
             # the model does not depend on node names (the generator fixes the coordinator to n1): rename the nodes
             # so that every node coordinates and owner lists start with every node
-            perm = dict(zip(s["nodes"], rnd.sample(s["nodes"], 3)))
+            perm = dict(zip(s["nodes"], rnd.sample(s["nodes"], len(s["nodes"]))))
             s["owners"] = [sorted(perm[o] for o in ow) for ow in s["owners"]]
             s["coord"] = perm[s["coord"]]
             s["fault"] = {perm[k]: v for k, v in s["fault"].items()}
@@ -183,8 +259,9 @@ def run(ctx):
         rp = json.load(open(f))["replay"]
         if "scenario" in rp:
             chosen.append(dict(rp["scenario"]))
-    model_scenarios = len(s32) + len(s33) + len(s22)
-    log("scenarios: model %d (3n2s %d, 3n3s %d, 2n2s %d); run %d" % (model_scenarios, len(s32), len(s33), len(s22), len(chosen)))
+    model_scenarios = len(s32) + len(s33) + len(s22) + len(s42)
+    log("scenarios: model %d (3n2s %d, 3n3s %d, 2n2s %d, 4n2s %d of which %d can split a retry round); run %d"
+        % (model_scenarios, len(s32), len(s33), len(s22), len(s42), len(split), len(chosen)))
 
     # ------------------------------------------------------------------ 3. real code
     inp = base_input(chosen, reps=1)
@@ -241,6 +318,7 @@ def validate_traces(ctx, sd, path, by_id, go, base_input):
 
     first = True
     for (nn, ns), items in groups.items():
+        items = normalize(items, by_id)
         rejected = []
         validated = False
         for attempt in range(5):
@@ -274,14 +352,13 @@ def validate_traces(ctx, sd, path, by_id, go, base_input):
             recs, out, rc = go(inp, "trace-confirm")
             again = False
             if os.path.exists(inp["trace_out"]):
-                runs = collections.OrderedDict()
+                its = []
                 for line in open(inp["trace_out"]):
                     e = json.loads(line)
-                    runs.setdefault(e["rid"], []).append((e["rid"], e["sid"], line.strip(), e))
-                for rid, its in runs.items():
-                    if not check(nn, ns, its, "trace-confirm-%d.ndjson" % rid)["accepted"]:
-                        again = True
-                        break
+                    its.append((e["rid"], e["sid"], line.strip(), e))
+                # one TLC run for all re-runs: any rejection confirms
+                if its and not check(nn, ns, normalize(its, by_id), "trace-confirm-%d.ndjson" % bad[0])["accepted"]:
+                    again = True
             if again:
                 res["rejected"] += 1
                 ctx.report_mismatch(sig, detail, {"scenario": sc})
@@ -308,6 +385,40 @@ def validate_traces(ctx, sd, path, by_id, go, base_input):
                     res["neg"] += 1
             first = False
     return res
+
+
+def normalize(items, by_id):
+    """A node of class `stall` never answers: the caller goes on when its own deadline expires, which is not caused
+    by anything the node does.  Under load the node's record of the request can therefore be written after the
+    harness recorded the end of the operation.  The request names its operation, and every operation occurs once
+    per traced run, so such a late `call` line is moved back in front of the `opEnd` of its operation."""
+    out = []
+    runs = collections.OrderedDict()
+    for it in items:
+        runs.setdefault(it[0], []).append(it)
+    for rid, its in runs.items():
+        sc = by_id.get(its[0][1])
+        stalls = {n for n, f in (sc["fault"].items() if sc else []) if f == "stall"}
+        if stalls:
+            ends = {}
+            res = []
+            for it in its:
+                e = it[3]
+                if e.get("e") == "opEnd":
+                    ends[e["op"]] = len(res)
+                if e.get("e") == "end":
+                    ends.setdefault("MQ", len(res))      # the all-nodes fan-out has no opEnd
+                if e.get("e") == "call" and e.get("node") in stalls and e.get("op") in ends:
+                    pos = ends[e["op"]]
+                    res.insert(pos, it)
+                    for k in ends:
+                        if ends[k] >= pos:
+                            ends[k] += 1
+                    continue
+                res.append(it)
+            its = res
+        out += its
+    return out
 
 
 def corrupt(items, kind, nn, skip=0):
